@@ -52,7 +52,7 @@ out = ["@@FILE Mgr_gen.v",
        "Require Import SquidV.Bytes.",
        "(* acl manager %s %s %s *)" % (acl_type, " ".join(flags), pats[0]),
        "Definition mgr_acl_type : bytes := %s." % coq_bytes(acl_type),
-       "Definition mgr_acl_icase : bool := %s." % ("true" if (flags and flags[-1] == "+i") else "false"),
+       "Definition mgr_acl_icase : bool := %s." % ("true" if (flags and flags[-1] == "-i") else "false"),
        "Definition mgr_acl_regex : bytes := %s." % coq_bytes(pats[0]),
        "(* CacheManager::WellKnownUrlPathPrefix(): %s *)" % prefix,
        "Definition mgr_prefix : bytes := %s." % coq_bytes(prefix),
